@@ -1,4 +1,5 @@
 import Emg3dVerif.Lemmas.Gridding
+import Emg3dVerif.Lemmas.Hier
 /-!
 # C16 — automatic gridding meets its stated postconditions or fails loudly
 
@@ -739,6 +740,40 @@ theorem oaw_none_iff {nOf : K → K → Nat} {i : OawIn K} {o : OawOut K} (h : o
           ∀ ca ∈ i.caOf sa, stretch sd.x0 sd.x1 sd.ws ca nx o.c0 o.c1 true = none := by
   rw [(oaw_ok h).1]
   exact search_none_iff
+
+open MGH in
+theorem halvings_mul_pow (p : Nat) (hp : p = 2 ∨ (p % 2 = 1 ∧ 3 ≤ p)) :
+    ∀ k, halvings (p * 2 ^ k) = k
+  | 0 => by
+    rw [Nat.pow_zero, Nat.mul_one, halvings_zero_iff]
+    rcases hp with rfl | ⟨h1, _⟩ <;> simp [canHalve] <;> omega
+  | k+1 => by
+    have hc : canHalve (p * 2 ^ (k+1)) = true := by
+      have h4 : 2 * 2 ≤ p * 2 ^ (k+1) := by
+        have : 2 ≤ p := by rcases hp with rfl | ⟨_, h⟩ <;> omega
+        have : 2 ≤ 2 ^ (k+1) := by
+          calc 2 = 2 ^ 1 := rfl
+            _ ≤ 2 ^ (k+1) := Nat.pow_le_pow_right (by omega) (by omega)
+        exact Nat.mul_le_mul ‹2 ≤ p› this
+      have he : (p * 2 ^ (k+1)) % 2 = 0 := by
+        rw [Nat.pow_succ, ← Nat.mul_assoc]; exact Nat.mul_mod_left _ _
+      simp [canHalve]; omega
+    rw [halvings_half _ hc]
+    have : p * 2 ^ (k+1) / 2 = p * 2 ^ k := by
+      rw [Nat.pow_succ, ← Nat.mul_assoc]; exact Nat.mul_div_cancel _ (by omega)
+    rw [this, halvings_mul_pow p hp k]
+
+open MGH in
+/-- **link to the multigrid hierarchy (C05)**: every permitted cell number can be halved at least
+`min_div` times -/
+theorem goodMg_halvings (M pl md n : Nat) (h : n ∈ goodMg M pl md) : md ≤ halvings n := by
+  obtain ⟨_, p, hp, _, k, hk1, _, rfl⟩ := (goodMg_spec M pl md n).1 h
+  have hp' : p = 2 ∨ (p % 2 = 1 ∧ 3 ≤ p) := by
+    simp only [List.mem_cons, List.not_mem_nil, or_false] at hp
+    rcases hp with rfl | rfl | rfl | rfl | rfl | rfl | rfl | rfl | rfl | rfl <;> simp
+  rw [halvings_mul_pow p hp' k]
+  exact hk1
+
 
 /-! non-vacuity: a concrete search that returns a grid (centre cell 100 m, survey domain ±300 m,
 computational domain ±1000 m, 16 cells) -/
